@@ -689,9 +689,17 @@ fn history_cases(r: &mut Rng) -> Vec<Case> {
             c.req = format!("{} (solution {} {})", head_req, sx_sol(&canned), queries);
             c.imp = format!("(ok {} {})", head_imp, readback(&sol));
         }
-        Ok(Err(_)) => { c.tags.push("not-linearizable".into()); c.req = head_req.clone(); c.imp = format!("(ok {})", head_imp); }
+        Ok(Err(BuilderError::Linearization(e))) => {
+            // `linearize()?` comes first: its error is what `solve_with` returns, whatever the solver would say
+            c.tags.push("not-linearizable".into());
+            c.req = format!("{} (solution {} {})", head_req, sx_sol(&canned), queries);
+            c.imp = format!("(ok {} (linearization {}))", head_imp, crate::props::c01::lin_error(&e));
+        }
+        Ok(Err(BuilderError::Solver(_))) => { c.req = head_req.clone(); c.imp = format!("(ok {})", head_imp); c.impl_violation = Some("the canned solver cannot fail".into()); }
         Err(_) => {
-            c.req = head_req.clone(); c.imp = format!("(ok {})", head_imp);
+            c.tags.push("solve-panic".into());
+            c.req = format!("{} (solution {} {})", head_req, sx_sol(&canned), queries);
+            c.imp = format!("(ok {} (solve-panic))", head_imp);
             if model.is_ok() { c.impl_violation = Some("solve_with panicked although into_model succeeded".into()); }
         }
     }
